@@ -217,3 +217,21 @@ def result_use(body, call):
     if any(x in r for x in body.return_blocks()):
         return 'continues'
     return 'propagated'
+
+
+def loop_source(body, head_call):
+    """Variable-level origin of what a `for` loop iterates: follows `&mut iter` of the Iterator::next call to the
+    iterator local and renders that local's definition with user variables kept as names."""
+    a = head_call.args[0]
+    l = a['pl']['l'] if a.get('pl') else None
+    # the argument is a temp `_t = &mut iter`
+    for _ in range(4):
+        nxt = None
+        for d in body.defs.get(l, []):
+            if d[2] == 'assign' and d[3]['rv']['k'] == 'ref':
+                nxt = d[3]['rv']['pl']['l']
+        if nxt is None:
+            break
+        l = nxt
+    ov = Origin(body, stop_at_vars=True)
+    return render(ov.of_local(l))
